@@ -53,6 +53,12 @@ def targets(rng, tier):
             v = {"msa": cm.b64(msa), "refid": "REF", "anno": cm.b64(annob), "suffix": "gff"}
             out.append(("variants", dict(v)))
             out.append(("variants", dict(v, aggregate=True)))
+            if len(out) < 40:
+                # many more records than the reader's channel buffer (50 + threads) holds: the failing write is reported while
+                # the reader is still at work
+                many = [gen.mutate(rng, ref_row, p_sub=0.1, p_amb=0.0, p_gap=0.0, p_lower=0.0) if "-" not in ref_row else rows[0] for _ in range(160)]
+                msa_long, _ = vcommon.build_msa(rng, ref_row, many, refpos="first", style="plain")
+                out.append(("variants", dict(v, msa=cm.b64(msa_long), threads=2)))
             srecs = []
             for qi in range(3):
                 srecs += samgen.make_query_topa(rng, genome, "q%d" % qi)
